@@ -193,7 +193,7 @@ def conditions(tier):
 
 
 META = {
-    "bounds": {"quick": "value [x0, [x1]] / {1: [x0]} (depth 2) with 7 list and 5 dict mutations (operands symbolic) after one assertion (create and fix) or between two assertions of the same object; operations ==, <=, >=, in, [key]",
+    "bounds": {"quick": "value [x0, [x1]] / {1: [x0]} (depth 2) with 7 list and 5 dict mutations (operands symbolic) after one assertion (create and fix) or between two assertions of the same object; operations ==, <=, >=, in, [key]; a tuple holding a list",
                "thorough": "all mutation x approval combinations"},
     "outside": "deeper or other value types; objects with custom __deepcopy__",
     "assumptions": ["stub: repr of a symbolic int leaf is a name token"],
